@@ -65,4 +65,36 @@ def trackTS (a : Anacrusis) (p : Nat) (o : Rat) (ktc : List (Key × (Nat × Nat)
 def trackTempo (p : Nat) (o : Rat) (parts : List PartIn) (tr : Nat) : List (Int × Msg) :=
   if tr = 0 then (exportTempos (fun x t => tick p x.base o t) parts).map fun e => (e.1, Msg.tempo e.2) else []
 
+-- ------------------------------------------------------------------ (part, voice) of the imported notes
+
+/-- the voice number `create_part` receives -/
+def voiceInt (v : Option Nat) : Int := match v with | some v => (v : Int) | none => 0
+
+/-- (part number, voice) of a cell of `assign_group_part_voice` -/
+def tagOf (c : Option Cell) : Option Nat × Int :=
+  match c with
+  | some c => (c.2.1, voiceInt c.2.2)
+  | none => (none, 0)
+
+/-- the cells the importer assigns when the (track, channel) pairs `tcs` hold notes:
+    `assign_group_part_voice(mode, sorted(tcs))` -/
+def cellTable (mode : Nat) (tcs : List (Nat × Nat)) : List ((Nat × Nat) × Cell) :=
+  (sortedTC tcs).zip (assignGroupPartVoice mode (sortedTC tcs))
+
+/-- the (part, voice) in which a note with key `k` comes back: the cell of the (track, channel) of the key -/
+def keyTag (mode : Nat) (ktc : List (Key × (Nat × Nat))) (k : Key) : Option (Option Nat × Int) :=
+  (lookup k ktc).map fun tc => tagOf (lookup tc (cellTable mode (ktc.map (·.2))))
+
+/-- every sounding note with its written ticks (onset, pitch, duration) and the (part, voice) it must come
+    back in -/
+def writtenCells (mode p : Nat) (o : Rat) (ktc : List (Key × (Nat × Nat))) (parts : List PartIn) :
+    List ((Int × Nat × Int) × (Option Nat × Int)) :=
+  (parts.zipIdx).flatMap fun xi => xi.1.notes.filterMap fun n =>
+    (keyTag mode ktc (xi.1.group, xi.2, n.2.2.2)).map fun t =>
+      ((tick p xi.1.base o n.1, n.2.2.1, tick p xi.1.base o (n.1 + n.2.1) - tick p xi.1.base o n.1), t)
+
+/-- the notes of the imported parts with the (part, voice) they are in -/
+def importedCells (imp : Imported) : List ((Int × Nat × Int) × (Option Nat × Int)) :=
+  imp.parts.flatMap fun e => e.2.notes.map fun n => ((n.1, n.2.1, n.2.2.1), ((some e.1 : Option Nat), n.2.2.2))
+
 end Model.ScoreMidi
